@@ -1,0 +1,6 @@
+//go:build !verif
+
+package confgen
+
+// verifYield is a no-op without the "verif" build tag.
+func verifYield(site string, key string) {}
